@@ -71,6 +71,8 @@ pub enum EndpointKind {
     Server { cfg: EndpointCfg, max_total: u64, max_active: u64, handshake_errors: bool },
     /// A harness-owned raw socket (forged / hostile traffic, byte accounting).
     Raw,
+    /// World U: the TFRC rate computer alone, driven by generated feedback.
+    Rate { max_send_rate: u32 },
 }
 
 #[derive(Clone, Debug, PartialEq)]
@@ -172,11 +174,17 @@ pub enum Op {
     Link { from: Option<usize>, to: Option<usize>, rule: LinkRule },
     ClockJump { ep: usize, us: u64 },
     /// A datagram appears at `to`, claiming to come from `from`'s address.
-    Inject { to: usize, from: usize, bytes: Vec<u8> },
+    /// `twin` marks datagrams that exist only in the twin run of a twin-run comparison (C15).
+    Inject { to: usize, from: usize, bytes: Vec<u8>, twin: bool },
     SockErr { ep: usize, recv: u32, send: u32 },
     SockCap { ep: usize, cap: u32 },
     /// Marker for oracles (e.g. "heal": no fault after this point).
     Mark { name: String },
+    /// World U: a frame was sent.
+    RateSent { ep: usize },
+    /// World U: step the rate computer, optionally with a feedback report
+    /// (rtt sample ms, receive rate, loss rate, rate limited).
+    RateStep { ep: usize, fb: Option<(u64, u32, f64, bool)> },
 }
 
 impl Op {
@@ -185,7 +193,7 @@ impl Op {
             Op::Create { ep } | Op::Destroy { ep } | Op::Step { ep } | Op::Flush { ep } | Op::StepEvery { ep, .. }
             | Op::Send { ep, .. } | Op::Disconnect { ep, .. } | Op::DisconnectNow { ep, .. }
             | Op::ServerDrop { ep, .. } | Op::ClockJump { ep, .. } | Op::SockErr { ep, .. }
-            | Op::SockCap { ep, .. } => Some(*ep),
+            | Op::SockCap { ep, .. } | Op::RateSent { ep } | Op::RateStep { ep, .. } => Some(*ep),
             Op::Inject { to, .. } => Some(*to),
             _ => None,
         }
@@ -208,6 +216,8 @@ impl Op {
             Op::SockErr { .. } => "sock_err",
             Op::SockCap { .. } => "sock_cap",
             Op::Mark { .. } => "mark",
+            Op::RateSent { .. } => "rate_sent",
+            Op::RateStep { .. } => "rate_step",
         }
     }
 }
@@ -460,10 +470,21 @@ pub fn op_to_json(op: &Op) -> Value {
         Op::ServerDrop { ep, to } => json!({"op": "drop", "ep": ep, "to": to}),
         Op::Link { from, to, rule } => json!({"op": "link", "from": from, "to": to, "rule": rule_to_json(rule)}),
         Op::ClockJump { ep, us } => json!({"op": "clock_jump", "ep": ep, "us": us}),
-        Op::Inject { to, from, bytes } => json!({"op": "inject", "to": to, "from": from, "hex": hex(bytes)}),
+        Op::Inject { to, from, bytes, twin } => {
+            if *twin {
+                json!({"op": "inject", "to": to, "from": from, "hex": hex(bytes), "twin": true})
+            } else {
+                json!({"op": "inject", "to": to, "from": from, "hex": hex(bytes)})
+            }
+        }
         Op::SockErr { ep, recv, send } => json!({"op": "sock_err", "ep": ep, "recv": recv, "send": send}),
         Op::SockCap { ep, cap } => json!({"op": "sock_cap", "ep": ep, "cap": cap}),
         Op::Mark { name } => json!({"op": "mark", "name": name}),
+        Op::RateSent { ep } => json!({"op": "rate_sent", "ep": ep}),
+        Op::RateStep { ep, fb } => match fb {
+            Some((rtt, rate, loss, lim)) => json!({"op": "rate_step", "ep": ep, "rtt_ms": rtt, "recv_rate": rate, "loss_rate": loss, "rate_limited": lim}),
+            None => json!({"op": "rate_step", "ep": ep}),
+        },
     }
 }
 
@@ -507,10 +528,19 @@ fn op_from_json(v: &Value) -> Result<Op, String> {
             to: get_u64(v, "to")? as usize,
             from: get_u64(v, "from")? as usize,
             bytes: unhex(get_str(v, "hex")?)?,
+            twin: v.get("twin").and_then(|x| x.as_bool()).unwrap_or(false),
         },
         "sock_err" => Op::SockErr { ep: ep()?, recv: get_u64(v, "recv")? as u32, send: get_u64(v, "send")? as u32 },
         "sock_cap" => Op::SockCap { ep: ep()?, cap: get_u64(v, "cap")? as u32 },
         "mark" => Op::Mark { name: get_str(v, "name")?.to_string() },
+        "rate_sent" => Op::RateSent { ep: ep()? },
+        "rate_step" => Op::RateStep {
+            ep: ep()?,
+            fb: match v.get("rtt_ms").and_then(|x| x.as_u64()) {
+                Some(rtt) => Some((rtt, get_u64(v, "recv_rate")? as u32, get_f64(v, "loss_rate")?, get_bool(v, "rate_limited")?)),
+                None => None,
+            },
+        },
         _ => return Err(format!("unknown op {}", name)),
     })
 }
@@ -524,6 +554,7 @@ fn endpoint_to_json(e: &EndpointSpec) -> Value {
             "handshake_errors": handshake_errors
         }),
         EndpointKind::Raw => json!({"type": "raw"}),
+        EndpointKind::Rate { max_send_rate } => json!({"type": "rate", "max_send_rate": max_send_rate}),
     };
     json!({"kind": kind, "addr": e.addr, "clock_ppm": e.clock_ppm, "echo": e.echo, "nonces": e.nonces})
 }
@@ -540,6 +571,7 @@ fn endpoint_from_json(v: &Value) -> Result<EndpointSpec, String> {
             handshake_errors: get_bool(k, "handshake_errors")?,
         },
         "raw" => EndpointKind::Raw,
+        "rate" => EndpointKind::Rate { max_send_rate: get_u64(k, "max_send_rate")? as u32 },
         t => return Err(format!("unknown endpoint type {}", t)),
     };
     Ok(EndpointSpec {
